@@ -861,6 +861,12 @@ pub fn generate(family: &str, seed: u64, count: usize, emit: &mut dyn FnMut(Stri
             }
         }
         "prefix" => {
+            // a literal whose integer part alone exceeds the range of a double but which a negative exponent or a
+            // fraction brings back: the digits-only prefix is a complete, out-of-range literal (known finding C19)
+            let long = format!("2{}e-1", "0".repeat(308));
+            for k in [305usize, 309, 310, 311] {
+                emit(format!("prefix {} {} {} {}", R_DEFAULT, k, fast_flag(), hex(long.as_bytes())));
+            }
             for _ in 0..count {
                 let elisp = r.chance(1, 3);
                 let (p, ro) = if elisp { (P_ELISP, R_ELISP) } else { (P_DEFAULT, R_DEFAULT) };
@@ -1023,6 +1029,28 @@ pub fn generate(family: &str, seed: u64, count: usize, emit: &mut dyn FnMut(Stri
                         if (b as usize + k) % 4 == 0 {
                             emit(parse_op("i1", ro, "r:d:4", &t));
                             if std::str::from_utf8(&t).is_ok() { emit(parse_op("s", ro, "v1", &t)); }
+                        }
+                    }
+                }
+            }
+            // multi-character escape bodies of both string syntaxes and of Emacs characters: values at and beyond every
+            // limit (surrogates, 0x10FFFF / 0x110000, more than 24 bits), wrong digits, missing terminators — every
+            // prefix of each, closed and unclosed, so that every error exit of the escape decoders is reached
+            for body in ["x41;", "xD800;", "xDFFF;", "xE000;", "x10FFFF;", "x110000;", "x1000000;", "x10000000;", "xFFFFFFFF;", "x;", "x4g;", "x41", "xg;",
+                         "xD800", "xD8000", "x110000", "x1000000", "x12345678", "154000", "1540000", "777", "7777777", "77777777777", "400", "8", "18",
+                         "u0041", "uD800", "uDFFF", "u12G4", "u12", "U00000041", "U0000D800", "U00110000", "U01000000", "U10000000", "U0000004", "U000G0041",
+                         "N{U+41}", "N{U+D800}", "N{U+D8000}", "N{U+110000}", "N{U+1000000}", "N{U+10000000}", "N{U+}", "N{U+4g}", "N{U-41}", "N{X+41}", "N[U+41}", "N{U+41", "N{LATIN}",
+                         "^a", "^A", "^z", "^1", "^", "^?", "C-a", "M-a", "S-a", "s", "d", "e", " ", "\n"] {
+                for k in 1..=body.len() {
+                    if !body.is_char_boundary(k) { continue; }
+                    for (pre, posts) in [("\"a\\", &["\"", "", "b\"", "0\""][..]), ("?\\", &["", " ", ")", "0"][..]), ("(?\\", &[")", ""][..])] {
+                        for post in posts {
+                            let t = format!("{}{}{}", pre, &body[..k], post);
+                            for ro in [R_DEFAULT, R_ELISP, "0011100100"] {
+                                if pre.starts_with('?') && ro == R_DEFAULT { continue; }
+                                emit(parse_op("b", ro, "r:v:4", t.as_bytes()));
+                                if k % 3 == 0 { emit(parse_op("i1", ro, "r:d:4", t.as_bytes())); emit(parse_op("s", ro, "v1", t.as_bytes())); }
+                            }
                         }
                     }
                 }
@@ -1347,7 +1375,13 @@ fn digits(r: &mut Rng, radix: u32, n: usize) -> String {
 
 pub fn gen_num_literal(r: &mut Rng) -> String {
     let sign = *r.pick(&["", "", "-", "+"]);
-    match r.below(14) {
+    match r.below(15) {
+        14 => {
+            // a radix literal too long for 64 bits that runs into a fraction, an exponent or a digit of another radix
+            let (prefix, radix, n) = *r.pick(&[("#b", 2u32, 66usize), ("#o", 8, 24), ("#x", 16, 18), ("#d", 10, 22), ("#b", 2, 200), ("#o", 8, 23)]);
+            let tail = *r.pick(&[".5", "e5", "E-3", ".", "2", "8", "9", "g", "a", "f", "", "#t", "+1"]);
+            format!("{}{}1{}{}", prefix, sign, digits(r, radix, n), tail)
+        }
         13 => {
             // a long run of zeros compensated by a large written exponent: the value is moderate although the
             // exponent has four digits (or the significand hundreds of digits)
